@@ -36,8 +36,9 @@ func (p c08) Run(c *core.Ctx) {
 		hm.POptional = 0.85
 		holders = append(holders, LiteralHolder(c.Rng, h, 1+c.Rng.Intn(5), g.Sc, hm))
 	}
-	repairUnsatisfiable(c, g, holders, 0.9)
-	runModelCase(c, g, holders, 4, true, nil, func(exp world.Expect) bool {
+	prov := LeanProviders(c.Rng)
+	repairUnsatisfiable(c, g, holders, 0.9, prov...)
+	runModelCase(c, g, holders, 4, true, nil, prov, func(exp world.Expect) bool {
 		byHolder := map[int][]world.PointRes{}
 		for _, pr := range exp.Points {
 			byHolder[pr.Pt.Holder] = append(byHolder[pr.Pt.Holder], pr)
